@@ -194,6 +194,218 @@ def run(ses, rep):
     rep.samples.append({"integer_slice_symbols": sorted(sym), "paths": len(paths)})
     for oid, m, kind, k in flagged:
         confirm(rep, oid, m, kind, dict(a=a, b=b, ell=ell, sep=sep, nf=k, sh=sh))
+    more = measured_values(ses, rep) + text_twice(ses, rep, 4 if quick else 5)
+    seen = {}
+    for oid, what, kind, info in more:
+        key = (kind, json.dumps(info, sort_keys=True))
+        if key not in seen:
+            seen[key] = replay_measure(info) if kind == "measure" else replay_text(info)
+        v, rec = seen[key]
+        if v is None:
+            rep.add(oid, "inconclusive", f"{what}: two formatting passes agree on the native build ({rec})")
+        else:
+            rep.add(oid, rep.violation({"obligation": kind, **{k_: v_ for k_, v_ in info.items() if k_ in ("function", "kind", "line_endings")}}, {"what": what, "observed": v, **rec}), f"{what}; {v}")
+
+
+MEASURE = re.compile(r"(^|::)(take_last_line|take_first_line|test_over_budget)$")
+FORMATTED = re.compile(r"(^|::)(format_[a-z_0-9]*|hang_[a-z_0-9]*|fmt_[a-z_]*|try_format_[a-z_]*|create_[a-z_]*|strip_[a-z_]*|symbol|new|update_[a-z_]*|with_[a-z_]*|"
+                       r"attempt_[a-z_]*|prepend_[a-z_]*|to_string|remove_[a-z_]*)$")
+
+
+def measured_values(ses, rep, fs="full"):
+    """M: the layout is measured on FORMATTED values only. In every formatter function, on every path, what is handed to
+    Shape::take_first_line / take_last_line / test_over_budget has been produced by a formatter (format_* / hang_* / a formatter callback /
+    a closure that formats) and is never a node of the input: the input's spelling (blanks, redundant parentheses, escapes) would decide
+    the layout in the first pass and be gone in the second."""
+    from .c07 import lazy_args
+    flagged = []
+    funcs = ses.mir("lib", fs)
+
+    def closure_formats(g, d=0):
+        if re.search(r"= (format_|hang_|<F as Fn)", g.text):
+            return True
+        if d > 2:
+            return False
+        for m2 in set(re.findall(r"\{closure@[^}]*\}", g.text)):
+            for g2 in [x for n3, l3 in funcs.items() for x in l3 if "{closure" in x.name and x.params and m2 in x.params[0][1] and x is not g]:
+                if closure_formats(g2, d + 1):
+                    return True
+        return False
+    n = 0
+    for name, l in sorted(funcs.items()):
+        for f in l:
+            if re.search(r"^(trivia::|trivia_util::|shape::|context::|verify_ast|sort_requires)|<impl|::promoted\[", f.name):
+                continue
+            if not any(s_[0] == "call" and MEASURE.search(canon(s_[2])) for sts in f.blocks.values() for s_ in sts):
+                continue
+            ex = ses.executor("lib", fs, inline=lambda n_, fn: False)
+            ex.max_block_visits = 1
+            try:
+                args = lazy_args(ex, f)
+                outs = ex.run(f, args)
+            except Inconclusive as e:
+                rep.extra.setdefault("measure_not_encoded", []).append(f"{f.name}: {str(e)[:60]}")
+                continue
+            rep.fn(f)
+            argoids = {(a.v if isinstance(a, RefV) else a).oid for a in args if isinstance(a.v if isinstance(a, RefV) else a, Lazy)}
+            for pi, o in enumerate(outs):
+                for t in o.trace:
+                    if not (t[0] == "havoc" and MEASURE.search(t[1])):
+                        continue
+                    x = t[4][1]
+                    while isinstance(x, RefV):
+                        x = x.v
+                    x = deref_val(ex, o.state, x)
+                    cur, raw = x, None
+                    for _ in range(12):
+                        if not isinstance(cur, Lazy):
+                            raw = False
+                            break
+                        root = cur.oid
+                        while root in ex.parent:
+                            root = ex.parent[root][0]
+                        if root in argoids:
+                            raw = True
+                            break
+                        if root not in ex.havoc_calls:
+                            break
+                        nm = ex.havoc_calls[root][0]
+                        last = nm.split("::")[-1]
+                        rawc = ex.havoc_raw.get(root, "")
+                        if FORMATTED.search(nm) or (last in ("call", "call_once", "call_mut") and re.match(r"^<&?(mut )?[A-Z][A-Za-z0-9]* as Fn", rawc)):
+                            raw = False
+                            break
+                        if last in ("map", "and_then", "flat_map", "call", "call_once", "call_mut", "map_or", "map_or_else"):
+                            cm = re.search(r"\{closure@[^}]*\}", rawc) or re.search(r"\{closure@[^}]*\}", " ".join(
+                                getattr(a_, "ty", "") or "" for a_ in ex.havoc_snap.get(root, []) if isinstance(a_, (Agg, Lazy))))
+                            cf = [g for n2, l2 in funcs.items() for g in l2 if cm and "{closure" in g.name and g.params and cm.group(0) in g.params[0][1]]
+                            if cf and closure_formats(cf[0]):
+                                raw = False
+                                break
+                        a0 = ex.havoc_snap[root][0] if ex.havoc_snap.get(root) else None
+                        while isinstance(a0, RefV):
+                            a0 = a0.v
+                        cur = a0
+                    n += 1
+                    oid = f"measure/{f.name}/path{pi}/{t[1].split('::')[-1]}"
+                    if not raw:
+                        if not any(o_["id"] == oid for o_ in rep.obligations[-40:]):
+                            rep.add(oid, "unsat", "the measured value is formatter output", nontrivial=False)
+                        continue
+                    r, m = ses.obligation(oid + "/formatted-value", list(o.pc), z3.BoolVal(True), "only formatter output is measured")
+                    if r == "sat":
+                        flagged.append((oid, f"{f.name} measures a node of the INPUT with {t[1].split('::')[-1]}: the first pass depends on the input's spelling",
+                                        "measure", {"function": f.name}))
+    rep.bounds["measured_values"] = n
+    if n < 50:
+        raise Inconclusive(f"only {n} measuring calls seen")
+    return flagged
+
+
+def replay_measure(info):
+    """un-normalised spelling of an early list item next to a later item at the width boundary: sweep the column width"""
+    binp = common.native_build("default")
+    progs = ["call(alpha   +   beta, function(parameterNumberOne, parameterNumberTwo, parameterNumberThree)\n\treturn 1\nend)\n",
+             "local aaaa,    bbbb,   cccc = first_value_name   +   1, (second_value_name), third_value_name\n",
+             "return (first_value_name),   second_value_name   ..   'x', third_value_name\n",
+             "call((first_argument_name), 'it\\'s', { key_name   =   1 }, second_argument_name)\n",
+             "for key_name,    value_name in pairs((container_name)),   second_iterator_state do\nend\n"]
+    tried = 0
+    for src in progs:
+        for w in range(20, 131):
+            tried += 1
+            rc, o1, _ = common.run_stylua(binp, src, ["--column-width", str(w)])
+            if rc != 0:
+                continue
+            rc, o2, _ = common.run_stylua(binp, o1, ["--column-width", str(w)])
+            if rc == 0 and o2 != o1:
+                return "formatting is not idempotent", {"source": src, "args": ["--column-width", str(w)], "pass1": o1, "pass2": o2}
+    return None, {"tried": tried}
+
+
+def text_twice(ses, rep, N=4):
+    """T: format_token's rewriting of block comments / long strings / line comments is idempotent: for every text of <= N characters
+    written with LF or CRLF and both line_endings settings, rewriting the rewritten text changes nothing (bounded strings, vcheck/bstr.py)"""
+    from .. import bstr
+    from . import c10
+    flagged = []
+    T = ses.enums("default")
+    extra_inline = set()         # extracted in-crate text helpers, found on demand (as in C10)
+    for kind in ("MultiLineComment", "StringLiteral", "SingleLineComment"):
+        def run_once(text, _depth=0):
+            ex = ses.executor("lib", "default", inline=lambda n, f, extra=frozenset(extra_inline): c10.INLINE_CTX(n, f) or f.name in extra)
+            vdef = [v for v in T.variants("TokenType") if v[0] == kind][0]
+            fields = []
+            for fname, fty in vdef[2]:
+                fields.append(text if fname == c10.KIND_TEXT[kind] else Agg("StringLiteralQuoteType", "Brackets", []) if fname == "quote_type" else ex.fresh_lazy(fty, fname))
+            tok = Agg("TokenType", kind, fields, [f_[0] for f_ in vdef[2]])
+
+            def tt(ex_, st, callee, args, dty):
+                if canon(callee).endswith("Token::token_type"):
+                    return RefV(tok)
+                return NotImplemented
+            ex.hooks = [tt, c10.str_identity, bstr.hook]
+            f = ses.need(ex, "format_token")
+            args = c10.lazy_args(ex, f)
+            le = None
+            res = []
+            for o in ex.run(f, args):
+                if o.kind != "return" or not (isinstance(o.value, Agg) and len(o.value.fields) == 3):
+                    continue
+                newtok = deref_val(ex, o.state, o.value.fields[0])
+                tv = deref_val(ex, o.state, ex.havoc_calls[newtok.oid][1][0]) if isinstance(newtok, Lazy) and newtok.oid in ex.havoc_calls else None
+                if not (isinstance(tv, Agg) and tv.variant == kind):
+                    continue
+                ot = deref_val(ex, o.state, tv.fields[[f_[0] for f_ in vdef[2]].index(c10.KIND_TEXT[kind])])
+                while isinstance(ot, Lazy) and ot.oid in ex.havoc_calls and ex.havoc_calls[ot.oid][0].split("::")[-1] in ("into", "from", "to_owned", "clone", "to_string"):
+                    ot = deref_val(ex, o.state, ex.havoc_calls[ot.oid][1][0])
+                if isinstance(ot, bstr.BStr):
+                    res.append((list(o.pc), ot))
+                elif isinstance(ot, Lazy) and ot.oid in ex.havoc_calls and _depth < 3:
+                    g = ex.resolve(ex.havoc_raw.get(ot.oid, ex.havoc_calls[ot.oid][0]))
+                    if g is not None and g.blocks and g.name not in extra_inline:
+                        extra_inline.add(g.name)
+                        return run_once(text, _depth + 1)
+            le = c10.cfg_field(ex, args[0].v, "line_endings")
+            return res, (ex.discr(None, le) if le is not None else None)
+        t0 = bstr.BStr.fresh("t", N)
+        first, d1 = run_once(t0)
+        if not first:
+            raise Inconclusive(f"format_token({kind}): no rewriting path")
+        pre_lang = bstr.DFA_ONE_LINE.accepts(t0) if kind == "SingleLineComment" else bstr.DFA_LF_OR_CRLF.accepts(t0)
+        for i, (pc1, out1) in enumerate(first[:4]):
+            second, d2 = run_once(out1)
+            for j, (pc2, out2) in enumerate(second[:4]):
+                for li, (vn, *_r) in enumerate(T.variants("LineEndings")):
+                    same_cfg = ([d1 == z3.BitVecVal(li, 64)] if d1 is not None else []) + ([d2 == z3.BitVecVal(li, 64)] if d2 is not None else [])
+                    pre = [t0.wellformed(), pre_lang] + pc1 + pc2 + same_cfg
+                    if not ses.reachable(pre):
+                        continue
+                    r, m = ses.obligation(f"text-twice/{kind}/{vn}/paths{i}-{j}", pre, z3.Not(bstr.equal(out1, out2)),
+                                          f"rewriting the rewritten text of a {kind} changes nothing", 120)
+                    if r == "sat":
+                        flagged.append((f"text-twice/{kind}/{vn}", f"{kind} text {t0.value(m)!r} becomes {out1.value(m)!r} and then {out2.value(m)!r} ({vn})",
+                                        "text", {"kind": kind, "text": t0.value(m), "line_endings": vn}))
+                    if d1 is None:
+                        break
+    rep.bounds["text_twice_chars"] = N
+    return flagged
+
+
+def replay_text(info):
+    binp = common.native_build("default")
+    text, k = info["text"], info["kind"]
+    if "]]" in text:
+        return None, {}
+    src = {"MultiLineComment": "--[[" + text + "]]\nlocal x = 1\n", "StringLiteral": "local s = [[" + text + "]]\n", "SingleLineComment": "--" + text + "\nlocal x = 1\n"}[k]
+    args = ["--line-endings", info["line_endings"]]
+    rc, o1, _ = common.run_stylua(binp, src, args)
+    if rc != 0:
+        return None, {}
+    rc, o2, _ = common.run_stylua(binp, o1, args)
+    if rc == 0 and o1 != o2:
+        return "formatting is not idempotent", {"source": src, "args": args, "pass1": o1, "pass2": o2}
+    return None, {"source": src}
 
 
 def confirm(rep, oid, m, kind, V):
